@@ -338,14 +338,32 @@ def run(ck):
     cnt = count_on_paths(hn, hands_over)
     ck.ob("C08-R4", "handleNewPeer/one-arm", cnt == [1], hn.loc, hn, "hand-overs (handlePeer | peersQueue.push) per path: %s" % cnt)
     hc = lib.single(prog, "Pistache::Tcp::Listener::handleNewConnection")
-    acc = [e for e in hc.calls(lambda e: (e.get("callee") or "") == "Pistache::Tcp::Listener::acceptConnection")]
-    ck.require(acc, "acceptConnection call not found")
+    # the call that yields the accepted descriptor: accept4()/accept() itself (when the helper around it was expanded into this
+    # function) or the helper that reaches it
+    may_accept = lib.Summaries(prog).lift_may(lambda e: libc(e, "accept4") or libc(e, "accept"), "accepts")
+    acc = [e for e in hc.events("call") if not e.get("inlined") and may_accept(e)]
+    ck.require(acc, "the call that accepts the connection (accept4 or a helper reaching it) not found in handleNewConnection")
     cnt = count_on_paths(hc, lambda e: e["k"] == "call" and ((e.get("callee") or "") == "Pistache::Tcp::Listener::dispatchPeer" or libc(e, "close")),
                          start=acc[0].block, start_idx=acc[0].idx + 1)
     ck.ob("C08-R4", "handleNewConnection/accepted-fd-owned", cnt == [1], acc[0].loc, hc, "dispatchPeer|close per non-throwing path after accept: %s" % cnt)
     # Listener::run catches SocketError and keeps accepting: a throw after accept4() must not leave the descriptor behind
     owned = lambda e: e["k"] == "call" and ((e.get("callee") or "") == "Pistache::Tcp::Listener::dispatchPeer" or libc(e, "close"))
-    leaks = [x for x in cfg.exits_without(hc, owned, start_block=acc[0].block, start_idx=acc[0].idx + 1) if x.kind == "throw"]
+    # where accept4() itself is visible here (its wrapper was expanded into this function), a descriptor exists only on the edge that
+    # knows the result is not negative: the wrapper's own failure throws come before that
+    avoid = None
+    if libc(acc[0], "accept4") or libc(acc[0], "accept"):
+        fdv = [d_["var"] for d_ in hc.blocks[acc[0].block].elems[acc[0].idx + 1:] if d_["k"] == "decl" and (d_.get("icall") or "") in ("accept4", "accept")][:1]
+        if fdv:
+            neg_edges = set()
+            for b_ in hc.blocks.values():
+                if b_.term and len(b_.succs) == 2:
+                    for k_ in (0, 1):
+                        if b_.succs[k_] is not None and (lib.edge_establishes(b_.term, k_, fdv[0], ("<",), lambda r_: r_.get("const") == 0 or (r_.get("t") or "").strip() == "0") or
+                                                         lib.edge_establishes(b_.term, k_, fdv[0], ("==", "<="), lambda r_: r_.get("const") == -1 or (r_.get("t") or "").replace(" ", "") == "-1")):
+                            neg_edges.add((b_.id, k_))
+            if neg_edges:
+                avoid = lambda st, blk, k, succ: None if (blk.id, k) in neg_edges else st
+    leaks = [x for x in cfg.exits_without(hc, owned, start_block=acc[0].block, start_idx=acc[0].idx + 1, avoid_edge=avoid) if x.kind == "throw"]
     # a throw *inside* acceptConnection itself happens before a descriptor exists: only throws of this function count
     ck.ob("C08-R4", "handleNewConnection/no-throw-with-open-fd", not leaks, leaks[0].event.loc if leaks and leaks[0].event is not None else acc[0].loc, hc,
           "no throw between accept and hand-over leaves the accepted descriptor open" if not leaks else
